@@ -19,7 +19,7 @@ Non-trivial = |J| >= 1; distinct by hash of the message octets.",
     assumptions: &["for a bad proxy-authen type no property states the variant: any single error carrying 29 or the code is accepted; for the unusable-length record any single error is accepted"],
     parts,
     run_tape,
-    run_enum: no_enum,
+    run_enum,
     run_concrete,
     both_profiles: true,
     exhaustive_note: "",
@@ -30,7 +30,7 @@ fn parts(t: Tier) -> Vec<Part> {
         Tier::Quick => 900_000,
         Tier::Thorough => 10_000_000,
     };
-    vec![tape("faults", a, 1500)]
+    vec![tape("faults", a, 1500), enumerate("vendor-ids", 65536)]
 }
 
 #[derive(Debug)]
@@ -284,27 +284,47 @@ fn check(t: &mut Tape, cx: &mut Cx) -> Res {
     }
     // optionally one final record with an unusable length, followed by junk that must contribute nothing
     let mut unusable = false;
+    let mut unusable_done = false;
     if k > 0 && t.chance(15) {
         unusable = true;
         let junk_n = t.below(30);
         let junk = t.raw(junk_n);
         let len = if t.chance(50) { t.below(6) } else { 6 + junk.len() + 1 + t.below(40) }.min(0x3ff);
         let attr = ASSIGNED[t.below(39)];
-        // ... whatever its other header fields say: H bit, vendor id (the length is judged before anything else)
-        let vend: u16 = if t.chance(40) { 1 + t.below(65535) as u16 } else { 0 };
-        let hbit = if t.chance(20) { 0x02 } else { 0 };
-        body.extend_from_slice(&[(((len >> 8) as u8) << 6) | 1 | hbit, len as u8]);
-        body.extend_from_slice(&vend.to_be_bytes());
-        body.extend_from_slice(&attr.to_be_bytes());
-        body.extend_from_slice(&junk);
+        if t.chance(15) {
+            // a header of six zero octets (what a zero-filled buffer looks like): still an AVP with an unusable length
+            body.extend_from_slice(&[0, 0, 0, 0, 0, 0]);
+            body.extend_from_slice(&junk);
+            expected.push(Expect::Any);
+            cx.class("final record: an all-zero header");
+            unusable_done = true;
+        }
+        if !unusable_done {
+            // ... whatever its other header fields say: H bit, vendor id (the length is judged before anything else)
+            let vend: u16 = if t.chance(40) { 1 + t.below(65535) as u16 } else { 0 };
+            let hbit = if t.chance(20) { 0x02 } else { 0 };
+            body.extend_from_slice(&[(((len >> 8) as u8) << 6) | 1 | hbit, len as u8]);
+            body.extend_from_slice(&vend.to_be_bytes());
+            body.extend_from_slice(&attr.to_be_bytes());
+            body.extend_from_slice(&junk);
+        }
         // junk that looks like a bad record must not add an error
         if t.chance(50) && len >= 6 {
             // (only reachable when the length is beyond the region: everything after the header is swallowed)
         }
-        expected.push(Expect::Any);
+        if !unusable_done {
+            expected.push(Expect::Any);
+        }
         cx.class("final record with an unusable length");
     }
-    let msg = control_around(t, &body);
+    let mut msg = control_around(t, &body);
+    // octets after the declared end of the message (another message, a few octets, exactly one header's worth) change nothing
+    if t.chance(20) {
+        let n = [12usize, 6, 1, 20][t.below(4)] + if t.chance(30) { t.below(30) } else { 0 };
+        let extra = if t.chance(50) { vec![0x13, 0x20, 0, 12, 0, 0, 0, 0, 0, 0, 0, 0] } else { t.raw(n) };
+        msg.extend_from_slice(&extra[..n.min(extra.len())]);
+        cx.class("octets follow the message in the buffer");
+    }
     let n_bad = expected.len();
     let render = || json!({"input": hex(&msg), "bad_records": n_bad, "expected_errors": format!("{:?}", expected)});
 
@@ -386,6 +406,41 @@ fn check(t: &mut Tape, cx: &mut Cx) -> Res {
 fn run_tape(_part: &str, tape: &[u8], cx: &mut Cx) -> Res {
     let mut t = Tape::new(tape);
     check(&mut t, cx)
+}
+
+/// every vendor id, with the M bit set and clear and with the H bit: the message is rejected with exactly that vendor id
+fn run_enum(_part: &str, index: u64, cx: &mut Cx) -> Res {
+    let v = index as u16;
+    for bits in [0x01u8, 0x00, 0x03, 0x3c] {
+        cx.eval();
+        let mut body = vec![0x01, 0x08, 0, 0, 0, 0, 0, 2];
+        rec(&mut body, bits, v, 7, b"host");
+        body.extend_from_slice(&[0x01, 0x08, 0, 0, 0, 9, 0, 77]);
+        let mut m = vec![0x13, 0x20, 0, 0, 0, 1, 0, 2, 0, 3, 0, 4];
+        m.extend_from_slice(&body);
+        let l = m.len() as u16;
+        m[2..4].copy_from_slice(&l.to_be_bytes());
+        cx.stage(STAGE_ARMED);
+        let r = crate_decode(&m, STRICT);
+        cx.stage(STAGE_SETUP);
+        match r {
+            Caught::Ok(Ok(_)) if v == 0 && bits & 0x02 != 0 => {} // vendor 0 with H: an opaque hidden AVP
+            Caught::Ok(Ok(_)) if v == 0 => {}                     // vendor 0: a plain Host Name
+            Caught::Ok(Err(e)) if v != 0 && e.len() == 1 && e[0] == DecodeError::UnsupportedVendorId(v) => {}
+            other => {
+                let what = match other {
+                    Caught::Ok(r) => format!("{:?}", r.map(|x| x.1)),
+                    _ => "panic".to_string(),
+                };
+                return fail(
+                    format!("vendor id {} on an AVP with header bits {:#04x} between two valid AVPs: result {} (a vendor-specific AVP makes the message rejected with exactly that vendor id)", v, bits, what),
+                    json!({"input": hex(&m)}),
+                );
+            }
+        }
+    }
+    cx.nontrivial(&(v, 15u8));
+    Ok(())
 }
 
 fn run_concrete(case: &Value, _cx: &mut Cx) -> Res {
